@@ -19,6 +19,7 @@ var edgeTokens = []string{
 	"0x10", "0X1F", "0b11", "0o7", "1_000", "0x1p-2", "0x1.8p1", "0x_1p0", "inf", "-inf", "+Inf", "Infinity", "-Infinity", "infinit", "nan", "NaN", "-nan", "+NaN",
 	"true", "false", "TRUE", "True", "t", "f", "T", "F", "tRuE", "yes", "no", "on", "off", "1 ", " 1", "1\t", "\n1", "٣", "１", "²", "", "a", "é", "\xff\xfe",
 	"1,2", "-", "=1", "1=2", "0.1e+1_0", "0x", "1e", "e1", "..", "1.2.3", "NaNx", "Inf ", "+", "18446744073709551616", "00000000000000000001", "1e+", "0e0", "-.5e-3",
+	"12\r", "1.5\r\n", "true\n", "abc\r", "7\n", "\r", "false\r\n",
 	"truE", "FALSE", "False", "fALSE", "0.0", "1.0", "١", "0x7fffffffffffffff", "1__0", "_1", "1_", "١٢٣", "１２", " ", "\t", "x y", "a=b=c", "-x", "--long", "--",
 }
 
@@ -57,7 +58,7 @@ func (c13Prop) Phases(tier string) []PhaseCfg {
 	if tier == "thorough" {
 		n = 20_000_000
 	}
-	return []PhaseCfg{{Name: "seeded", Count: n}}
+	return []PhaseCfg{{Name: "seeded", Count: n}, {Name: "multi-container", Count: n / 3, P: map[string]int{"multi": 1}}}
 }
 
 func mutateToken(t *Tape, s string) string {
@@ -85,6 +86,11 @@ func mutateToken(t *Tape, s string) string {
 }
 
 func (c13Prop) Gen(t *Tape, ph *PhaseCfg) Case {
+	if ph != nil && ph.P["multi"] == 1 {
+		// several typed containers at once (lists may share one default slice object of the host program):
+		// every one of them must hold exactly the parse of the tokens it was given
+		return genMulti(t)
+	}
 	c := &c13Case{}
 	kind := ValKind(t.Draw(7))
 	isArg := t.Draw(2) == 1
@@ -231,6 +237,9 @@ func (c13Prop) Gen(t *Tape, ph *PhaseCfg) Case {
 }
 
 func (c13Prop) Exec(cc Case, st *Stats) *Violation {
+	if m, ok := cc.(*multiCase); ok {
+		return multiExecOpt(m, st, true, true)
+	}
 	c := cc.(*c13Case)
 	c.Env.Apply()
 	p := NewProc(0)
